@@ -354,13 +354,16 @@ func Run[C any](t *testing.T, id string, gen func(*rapid.T) C, check func(C) Res
 		r := safeCheck(check, c)
 		s.record(caseJSON, c, r)
 		if r.Violation != "" {
+			// rapid re-runs the minimal case last, so the last write is the shrunk one. (Recorded here:
+			// when rapid.Check fails it ends the test goroutine and nothing after it runs.)
 			lastViolation = r.Violation
 			lastFail = fail(caseJSON, r)
+			s.mu.Lock()
+			s.Violation, s.FailFile = lastViolation, lastFail
+			s.mu.Unlock()
 			rt.Fatalf("%s", r.Violation)
 		}
 	})
-	s.Violation = lastViolation
-	s.FailFile = lastFail
 	s.Completed = !t.Failed()
 }
 
